@@ -191,6 +191,7 @@ def check_cfg_ref(acc, spec, length=4, start='T'):
     import gambatools.notebook as nb
     import gambatools.notebook_chomsky as nc
     g = None
+    spec = cfg.start_first(spec)
     if cfg.normalise_simple(spec):
         lhs = {l for l, _ in spec[3]}
         terms = {x for _, rhs in spec[3] for x in rhs if x not in spec[1]}
@@ -215,6 +216,7 @@ def check_cfg_ref(acc, spec, length=4, start='T'):
 
 def check_cnf_ref(acc, spec, L=4):
     import gambatools.notebook_cfg as ncfg
+    spec = cfg.start_first(spec)
     if not cfg.normalise_simple(spec):
         acc.c['grammar_degenerate_or_not_expressible'] += 1
         return
